@@ -51,12 +51,13 @@ def implAnswer (j : Json) : R (Option (Rat × Rat × Rat × Rat)) := do
 
 def buildErrorName : BuildError → String
   | .empty => "empty" | .lenMismatch => "lenMismatch" | .distSize => "distSize" | .durSize => "durSize"
+  | .notSquare => "notSquare" | .duplicateTimestamp => "duplicateTimestamp"
   | .timedInAgnostic => "timedInAgnostic" | .agnosticProfiles => "agnosticProfiles"
   | .missingTimestamp => "missingTimestamp" | .singleTimed => "singleTimed"
 
 def readerErrorName : ReaderError → String
   | .mixedNames => "mixedNames" | .timedUnnamed => "timedUnnamed" | .notEnough => "notEnough"
-  | .invalidIndex => "invalidIndex" | .profileCount => "profileCount" | .unknownName => "unknownName" | .mixedKnownNames => "mixedKnownNames"
+  | .invalidIndex => "invalidIndex" | .errorCodesLength => "errorCodesLength" | .profileCount => "profileCount" | .unknownName => "unknownName" | .mixedKnownNames => "mixedKnownNames"
   | .build e => buildErrorName e
 
 def optEq (a : Option Rat) (b : Rat) : Bool :=
@@ -95,7 +96,6 @@ def handleCore (j : Json) : R (List (String × Json)) := do
       pure ((← asInt a[0]!), (← asInt a[1]!))) j "fb"
   let vs ← listF (fun v => do pure (⟨← natF v "p", ← ratOf (← fld v "sc")⟩ : Profile)) j "vs"
   let qs ← listF parseQuery j "qs"
-  let dev := (fldD j "dev" Json.null)
   let impl ← fld j "impl"
   let implErr := (impl.getObjVal? "err").toOption
   let model : Json :=
@@ -107,7 +107,7 @@ def handleCore (j : Json) : R (List (String × Json)) := do
           | some p => answer pr fb p q
           | none => Json.null) qs)]
   -- oracles on the implementation's output
-  let rejects := !(inconsistent ms) || implErr.isSome || !dev.isNull
+  let rejects := !(inconsistent ms) || implErr.isSome
   -- the converse: a well-formed set is served (theorem `well_formed_is_served`)
   let n0 := match ms with
     | [] => 0
@@ -115,7 +115,7 @@ def handleCore (j : Json) : R (List (String × Json)) := do
   let serves := !(wellFormed ms n0) || implErr.isNone
   let mut values := true
   let mut same := true
-  if implErr.isNone && !(impl.getObjVal? "inexact").toOption.isSome && dev.isNull then
+  if implErr.isNone && !(impl.getObjVal? "inexact").toOption.isSome then
     let size ← natF impl "size"
     let rs ← listF implAnswer impl "rs"
     let n := match ms with
@@ -179,7 +179,8 @@ def handlePrag (j : Json) : R (List (String × Json)) := do
               ("self", probe cidx cidx)])] else []))
   -- a deviation case (S28 / D1 / D2) that is still outside the hypotheses is exempt from the oracle it is about
   let exempt (name : String) : Bool := devName == name && !inHyp
-  let unknownRejected := namesKnown profiles ms || implErr.isSome || exempt "S28" || exempt "S28u"
+  -- a set in which no matrix name is a fleet profile (stream S28u) is mapped by position: documented behaviour
+  let unknownRejected := namesKnown profiles ms || implErr.isSome || exempt "S28u"
   let rejects := !(readerInconsistent profiles maxIndex ms) || implErr.isSome || !inHyp
   -- the converse at reader level: a valid routing input (known names, one well-formed group per fleet profile, all of
   -- the size the locations need) is accepted
@@ -224,7 +225,7 @@ def handlePrag (j : Json) : R (List (String × Json)) := do
       | _, _ => true)
   -- the location of custom type `unknown` is at zero duration and distance from every location (D3 exempt)
   let mut unkZero := true
-  if withUnk && implErr.isNone && !(impl.getObjVal? "panic").toOption.isSome && !exempt "D3" then
+  if withUnk && implErr.isNone && !(impl.getObjVal? "panic").toOption.isSome then
     match (impl.getObjVal? "unk").toOption with
     | none => unkZero := false
     | some u =>
